@@ -121,6 +121,21 @@ impl PutQuery {
 
     /// Check if the query is either successfully done, or terminated with an error.
     pub fn check(&self, socket: &KrpcSocket) -> Result<bool, PutError> {
+        // A majority of nodes rejecting a mutable item decides the outcome whether or not
+        // that majority was reached by the last response to arrive.
+        if let Some(most_common_error) = self.majority_nodes_rejected_put_mutable() {
+            let target = self.target;
+
+            debug!(
+                ?target,
+                ?most_common_error,
+                nodes_count = self.inflight_requests.len(),
+                "PutQuery for MutableItem was rejected by most nodes with 3xx code."
+            );
+
+            return Err(most_common_error)?;
+        }
+
         // And all queries got responses or timedout
         if self.is_done(socket) {
             let target = self.target;
@@ -143,17 +158,6 @@ impl PutQuery {
             debug!(?target, stored_at = ?self.stored_at, "PutQuery Done successfully");
 
             return Ok(true);
-        } else if let Some(most_common_error) = self.majority_nodes_rejected_put_mutable() {
-            let target = self.target;
-
-            debug!(
-                ?target,
-                ?most_common_error,
-                nodes_count = self.inflight_requests.len(),
-                "PutQuery for MutableItem was rejected by most nodes with 3xx code."
-            );
-
-            return Err(most_common_error)?;
         }
 
         Ok(false)
